@@ -157,7 +157,7 @@ def chord_distance(x: np.array, y: np.array) -> float:
 
     dist = 2 - 2 * (np.sum(x * y) / (np.sum(x**2) ** 0.5 * np.sum(y**2) ** 0.5))
 
-    return dist**0.5
+    return np.maximum(dist, 0) ** 0.5
 
 
 @d.avoid_zero_division
